@@ -119,6 +119,10 @@ pub trait StagingStore: OcflStore {
     /// Stages an OCFL object if there is not an existing object with the same ID.
     fn stage_object(&self, inventory: &mut Inventory) -> Result<()>;
 
+    /// Rewrites the version declaration of a staged object that has not been committed yet so
+    /// that it matches the spec version of its inventory.
+    fn stage_object_declaration(&self, inventory: &Inventory) -> Result<()>;
+
     /// Copies a file in the staging area
     fn stage_file_copy(
         &self,
